@@ -158,7 +158,8 @@ func Quiesce() QuiesceInfo {
 				continue
 			}
 			info.Goroutines++
-			if !g.Blocked() {
+			if !g.Blocked() || g.inStacks() {
+				// (a goroutine waiting for the monitor's own dump mutex is about to run again)
 				all = false
 				break
 			}
@@ -191,4 +192,44 @@ func firstN(s []string, n int) []string {
 		return s[:n]
 	}
 	return s
+}
+
+// BlockedIn returns the goroutines of the caller's bubble (or of the whole
+// process when called outside a bubble) that are blocked (not running /
+// runnable) with a frame containing any of the given substrings. Used right
+// after a Close/Stop call returned: a goroutine that is still parked inside
+// the component at that moment had not finished when the call returned (a
+// goroutine on its way out is running or runnable, never parked, once it has
+// signalled its WaitGroup).
+func BlockedIn(substr ...string) []G {
+	me, bubble := ownBubble()
+	var out []G
+	for _, g := range ParseStacks(Stacks()) {
+		if g.ID == me || g.Bubble != bubble || !g.Blocked() || g.Transient() {
+			continue
+		}
+		for _, f := range g.Frames {
+			hit := false
+			for _, s := range substr {
+				if strings.Contains(f, s) {
+					hit = true
+				}
+			}
+			if hit {
+				out = append(out, g)
+				break
+			}
+		}
+	}
+	return out
+}
+
+// inStacks: the goroutine is inside mon.Stacks (waiting for, or holding, the dump buffer).
+func (g G) inStacks() bool {
+	for _, f := range g.Frames {
+		if strings.HasSuffix(f, "internal/mon.Stacks") {
+			return true
+		}
+	}
+	return false
 }
